@@ -151,6 +151,7 @@ public:
     //! Some thread is now the owner of this slot
     void release() {
         __TBB_ASSERT(my_is_occupied.load(std::memory_order_relaxed), nullptr);
+        __TBB_VERIF_POINT(vp_arena_release_slot, this, 0);
         my_is_occupied.store(false, std::memory_order_release);
     }
 
@@ -226,6 +227,7 @@ private:
         }
         acquire_task_pool();
         std::size_t H =  head.load(std::memory_order_relaxed); // mirror
+        __TBB_VERIF_POINT(vp_deque_relocate, this, T - H);
         d1::task** new_task_pool = task_pool_ptr;
         __TBB_ASSERT( my_task_pool_size >= min_task_pool_size, nullptr);
         // Count not skipped tasks. Consider using std::count_if.
@@ -266,6 +268,7 @@ private:
         // emit "task was released" signal
         // Release fence is necessary to make sure that previously stored task pointers
         // are visible to thieves.
+        __TBB_VERIF_POINT(vp_deque_commit_spawned, this, new_tail);
         tail.store(new_tail, std::memory_order_release);
     }
 
@@ -276,6 +279,7 @@ private:
         __TBB_ASSERT ( head.load(std::memory_order_relaxed) < tail.load(std::memory_order_relaxed),
                 "entering arena without tasks to share" );
         // Release signal on behalf of previously spawned tasks (when this thread was not in arena yet)
+        __TBB_VERIF_POINT(vp_deque_publish, this, 0);
         task_pool.store(task_pool_ptr, std::memory_order_release );
     }
 
@@ -307,6 +311,7 @@ private:
             }
             // Someone else acquired a lock, so pause and do exponential backoff.
         }
+        __TBB_VERIF_POINT(vp_deque_owner_locked, this, 0);
         __TBB_ASSERT( task_pool.load(std::memory_order_relaxed) == LockedTaskPool, "not really acquired task pool" );
     }
 
